@@ -42,7 +42,11 @@ def wl_cms(ctx, rng, case):
     width, depth = rng.choice([1, 2, 3, 4]), rng.randint(1, 4)
     hname, hf = gen.pick_hash(rng, keys, kind=rng.choice(["library_default", "default_fnv_1a", "default_md5", "hand_mod3", "hand_all_one_cell", "hand_huge_values"]))
     case.desc = {"kind": "count-min", "width": width, "depth": depth, "hash": hname}
-    s = P.CountMinSketch(width=width, depth=depth, **bl.kw_hash(hf))
+    qtype = rng.choice(["min", "min", "mean", "mean-min"])
+    if qtype == "mean-min":
+        width = max(width, 2)
+    s = {"min": P.CountMinSketch, "mean": P.CountMeanSketch, "mean-min": P.CountMeanMinSketch}[qtype](width=width, depth=depth, **bl.kw_hash(hf))
+    case.desc["query_type"] = qtype
     model = [0] * (width * depth)
     total = 0
     sat_hi = sat_lo = 0
@@ -67,7 +71,7 @@ def wl_cms(ctx, rng, case):
             total = clamp(total - n, I64MIN, I64MAX)
         else:
             # join with a second near-limit sketch
-            t = P.CountMinSketch(width=width, depth=depth, **bl.kw_hash(hf))
+            t = type(s)(width=width, depth=depth, **bl.kw_hash(hf))
             n2 = amount(rng, I32MAX)
             neg = rng.random() < 0.4
             k2 = rng.choice(keys)
@@ -93,10 +97,16 @@ def wl_cms(ctx, rng, case):
         ctx.check(st["cells"] == model, f"counters differ from the saturating model {where}", got=st["cells"], want=model)
         ctx.check(s.elements_added == total and st["added"] == total, f"element total is not pinned at the 64-bit limits {where}", got=s.elements_added, want=total)
         if ret is not None:
-            want_ret = min(model[c] for c in idx)
-            ctx.check(ret == want_ret and s.check(k) == want_ret, f"returned value is not the pinned minimum {where}", returned=ret, check=s.check(k), want=want_ret)
+            if qtype == "min":
+                want_ret = min(model[c] for c in idx)
+                ctx.check(ret == want_ret and s.check(k) == want_ret, f"returned value is not the pinned minimum {where}", returned=ret, check=s.check(k), want=want_ret)
+            else:
+                # mean / mean-min: the returned estimate is the one computed from the PINNED cells, i.e. what check() says right afterwards
+                ctx.check(ret == s.check(k), f"value returned by a saturating call differs from the estimate over the pinned cells ({qtype} query) {where}",
+                          returned=ret, check=s.check(k))
+                ctx.count("non_min_return_checks")
         data = bytes(s)
-        ctx.check(bytes(P.CountMinSketch.frombytes(data, **bl.kw_hash(hf))) == data, f"export -> load -> export is not the identity {where}")
+        ctx.check(bytes(type(s).frombytes(data, **bl.kw_hash(hf))) == data, f"export -> load -> export is not the identity {where}")
         sat_hi += any(c == I32MAX for c in model)
         sat_lo += any(c == I32MIN for c in model)
         ctx.count("cell_comparisons", len(model))
@@ -249,5 +259,5 @@ PROP = Prop(
                  "counting-Bloom removals are legitimate (amount <= outstanding additions) unless the key's minimum is pinned at the limit",
                  "join: a receiver cell already at a limit may stay pinned or take the saturating sum"],
     required=["cell_comparisons", "cases_reaching_int32_max", "cases_reaching_int32_min", "cases_reaching_uint32_max", "cases_reaching_int64_limit",
-              "cases_saturating_with_coinciding_positions", "removals_refused_at_limit", "joins", "unions_and_intersections", "chained_merges"],
+              "cases_saturating_with_coinciding_positions", "removals_refused_at_limit", "joins", "unions_and_intersections", "chained_merges", "non_min_return_checks"],
 )
